@@ -58,6 +58,31 @@ Definition cddl_tag (c : cert) : N :=
   | DRepUpdate => 18
   end.
 
+(* decoder used by the driver: CDDL number + amount token -> certificate *)
+Definition cert_of_tag (tag : N) (coin : option N) : option cert :=
+  match tag, coin with
+  | 0, None => Some (StakeRegistration None)
+  | 1, None => Some (StakeDeregistration None)
+  | 2, None => Some StakeDelegation
+  | 3, None => Some PoolRegistration
+  | 4, None => Some PoolRetirement
+  | 5, None => Some GenesisKeyDelegation
+  | 6, None => Some MoveInstantaneousRewardsCert
+  | 7, Some x => Some (StakeRegistration (Some x))
+  | 8, Some x => Some (StakeDeregistration (Some x))
+  | 9, None => Some VoteDelegation
+  | 10, None => Some StakeAndVoteDelegation
+  | 11, Some x => Some (StakeRegistrationAndDelegation x)
+  | 12, Some x => Some (VoteRegistrationAndDelegation x)
+  | 13, Some x => Some (StakeVoteRegistrationAndDelegation x)
+  | 14, None => Some CommitteeHotAuth
+  | 15, None => Some CommitteeColdResign
+  | 16, Some x => Some (DRepRegistration x)
+  | 17, Some x => Some (DRepDeregistration x)
+  | 18, None => Some DRepUpdate
+  | _, _ => None
+  end.
+
 (* the amount written inside the certificate, if the kind has one *)
 Definition cert_coin (c : cert) : option N :=
   match c with
@@ -329,6 +354,8 @@ Definition case_txb (k : case) : txb :=
 Record obs : Type := mk_obs {
   o_helper_deposit : result N;        (* get_deposit(body, pool, key) *)
   o_helper_implicit : result N;       (* get_implicit_input(body, pool, key) *)
+  o_helper_deposit_wire : result N;   (* the same two on TransactionBody::from_bytes(body.to_bytes()) *)
+  o_helper_implicit_wire : result N;
   o_cb_deposit : result N;            (* CertificatesBuilder::get_certificates_deposit (0 when no certificates) *)
   o_cb_refund : result N;             (* CertificatesBuilder::get_certificates_refund *)
   o_wb_total : result N;              (* WithdrawalsBuilder::get_total_withdrawals *)
@@ -336,6 +363,8 @@ Record obs : Type := mk_obs {
   o_tb_implicit : result N;           (* TransactionBuilder::get_implicit_input *)
   o_tb_total_input : result N;
   o_tb_total_output : result N;
+  o_helper_deposit_built : result N;  (* the helpers on the body TransactionBuilder::build() produces *)
+  o_helper_implicit_built : result N; (* ([Panic] stands for: build() itself failed) *)
   o_set_certs : bool;                 (* deprecated set_certs(Certificates) succeeded *)
   o_set_withdrawals : bool;           (* deprecated set_withdrawals(Withdrawals) succeeded *)
   o_dep_deposit : option (result N);  (* figures of the builder filled through the deprecated setters, *)
@@ -361,10 +390,11 @@ Definition model_obs (k : case) : obs :=
                Some (tb_get_deposit t', tb_get_implicit_input t')
              | _, _ => None
              end in
-  mk_obs (get_deposit b p q) (get_implicit_input b p q)
+  mk_obs (get_deposit b p q) (get_implicit_input b p q) (get_deposit b p q) (get_implicit_input b p q)
          (get_certificates_deposit cs p q) (get_certificates_refund cs p q)
          (get_total_withdrawals (opt_list (b_withdrawals b)))
          (tb_get_deposit t) (tb_get_implicit_input t) (tb_get_total_input t) (tb_get_total_output t)
+         (get_deposit b p q) (get_implicit_input b p q)
          (is_okb sc) (is_okb sw)
          (option_map fst dep) (option_map snd dep).
 
@@ -408,8 +438,10 @@ Definition judge (k : case) (o : obs) : verdict :=
    && opt_res_ok (o_dep_deposit o) sd
    && opt_res_ok (o_dep_implicit o) si in
   (* helper = ledger table, and helper = builder *)
-  let hd_ok := res_eqb (o_helper_deposit o) sd && res_eqb (o_helper_deposit o) (o_tb_deposit o) in
-  let hi_ok := res_eqb (o_helper_implicit o) si && res_eqb (o_helper_implicit o) (o_tb_implicit o) in
+  let hd_ok := forallb (fun r => res_eqb r sd && res_eqb r (o_tb_deposit o))
+                       [o_helper_deposit o; o_helper_deposit_wire o; o_helper_deposit_built o] in
+  let hi_ok := forallb (fun r => res_eqb r si && res_eqb r (o_tb_implicit o))
+                       [o_helper_implicit o; o_helper_implicit_wire o; o_helper_implicit_built o] in
   (* 0 = holds, 1 / 2 = fails inside the known class, 3 = fails outside *)
   let v_hi : N := if hi_ok then 0 else if known_pool_retirement b p then 1 else 3 in
   let v_hd : N := if hd_ok then 0 else if known_ignores_proposals b then 2 else 3 in
